@@ -622,6 +622,10 @@ def oracle(case, obs):
             if not offc and requested and had_state and not auto and not user_done:
                 if len(calls) != 1 + nnow:
                     out.append(("C01", "op %d %r: requested iteration ran %d state functions with %d next_state_now()" % (opi, op, len(calls), nnow)))
+                    if ndone > 0:
+                        out.append(("C04", "op %d %r: done() was invoked during an iteration for which engage() had been called, no state "
+                                           "function called done(), and a state function that should have run did not (%d ran with %d "
+                                           "next_state_now()): none of the stop causes applies" % (opi, op, len(calls), nnow)))
             if not offc and all(c[1] == default for c in calls) and is_exec:
                 msg = "op %d %r: no regular or must_finish state ran in this iteration, but the machine is still executing" % (opi, op)
                 out.append(("C01", msg))
